@@ -126,6 +126,9 @@ func (s *Scanner) Scan() bool {
 	for {
 		s.token = token.INVALID
 		s.tokenOffset = s.offset
+		// Without a token there is no literal: a stale length would make Literal() slice past
+		// the end of the source once Scan has returned false.
+		s.tokenLength = 0
 		s.tokenPosition = token.Position{
 			Line:   s.line,
 			Column: s.column,
